@@ -107,11 +107,6 @@ End Natural.
 (* ---------------------------------------------------------------------------------------- *)
 (* 3. characters: the line lexes to the canonical declaration                                *)
 (* ---------------------------------------------------------------------------------------- *)
-Lemma rec_newline_define rest : rec_at NEWLINE (10 :: lit "    ") (lit "define" ++ rest).
-Proof. split; [vm_compute; reflexivity|split; [discriminate|reflexivity]]. Qed.
-Lemma rec_define rest : rec_at DEFINE (lit "define") (32 :: rest).
-Proof. split; [destruct rest as [|? [|? ?]]; vm_compute; reflexivity|split; [discriminate|reflexivity]]. Qed.
-
 (* a text that is a sequence of recognised tokens followed by one line feed lexes to exactly those tokens and a NEWLINE *)
 Lemma lexes_of_recs ts :
   recs ts [10] ->
@@ -129,15 +124,15 @@ Qed.
 Definition decl_prefix (rel : str) : list kt :=
   [(NEWLINE, 10 :: lit "    "); (DEFINE, lit "define"); (WHITESPACE, lit " "); (IDENTIFIER, rel); (COLON, lit ":"); (WHITESPACE, lit " ")].
 
-Lemma recs_decl_prefix rel R : plain_name rel = true -> solid_next R -> recs (decl_prefix rel) R.
+Lemma recs_decl_prefix rel R : plain_name rel = true -> solid_next R -> fits (decl_prefix rel) R.
 Proof.
   intros Hn HR. unfold decl_prefix.
-  apply recs_cons; [|apply recs_cons; [|apply recs_cons; [|apply recs_cons; [|apply recs_cons; [|apply recs_one]]]]]; cbn [fst snd map concat].
-  - rewrite <- app_assoc. apply rec_newline_define.
-  - rewrite <- app_assoc. apply rec_define.
+  apply fits_cons; [|apply fits_cons; [|apply fits_cons; [|apply fits_cons; [|apply fits_cons; [|apply fits_one]]]]]; cbn [fst snd map concat].
+  - rewrite <- app_assoc. apply fit_newline; reflexivity.
+  - rewrite <- app_assoc. apply (fit_kw DEFINE); [cbn; tauto|reflexivity].
   - apply rec_blank'. rewrite <- app_assoc. apply name_solid. exact Hn.
-  - apply (rec_name rel 58); [exact Hn|reflexivity].
-  - apply rec_colon.
+  - apply fit_name; [exact Hn|reflexivity].
+  - apply (fit_punct COLON). cbn. tauto.
   - apply rec_blank'. exact HR.
 Qed.
 
@@ -164,7 +159,7 @@ Theorem printed_declaration_lexes rel d :
 Proof.
   intros Hn Hok s. set (C := toks_def (rd_first d) (rd_op d) (rd_rest d)).
   assert (R : recs (decl_prefix rel ++ kts C) [10]).
-  { apply recs_app. split; [|apply rdef_lexes; [exact Hok|reflexivity]].
+  { apply fits_recs. apply fits_app. split; [|apply rdef_lexes; [exact Hok|reflexivity]].
     apply recs_decl_prefix; [exact Hn|]. apply (def_text_solid d [10] Hok eq_refl). }
   pose proof (lexes_of_recs _ R) as L. cbv zeta in L.
   assert (Es : concat (map snd (decl_prefix rel ++ kts C)) ++ [10] = s).
